@@ -195,8 +195,10 @@ def run(ctx):
     # exactly by the language; expectations straight from the statement, no rationals needed
     inf = math.inf
     plot_utils = _lib()
-    for low, high in ((0, 10), (-inf, 0), (0, inf), (-inf, inf), (5, 5), (inf, inf), (-inf, -inf)):
-        for value in (-inf, -1, 0, 5, 10, 11, inf):
+    big = 1.5e308                       # finite, but the sum of two of them is not
+    for low, high in ((0, 10), (-inf, 0), (0, inf), (-inf, inf), (5, 5), (inf, inf), (-inf, -inf),
+                      (big, big), (-big, -big), (-big, big), (1.0e308, big), (0, big)):
+        for value in (-inf, -1, 0, 5, 10, 11, inf, 1.7e308, -1.7e308, big, -big, 1.2e308):
             want = low if value < low else (high if value > high else value)
             outside = value < low or value > high
             for tol in (0, 0.5):
@@ -257,7 +259,11 @@ def replay(case):
 
 
 def _replay_infinite(case):
-    conv = lambda t: float(t) if "inf" in str(t) else (float(t) if "." in str(t) else int(t))   # noqa: E731
+    def conv(text):
+        try:
+            return int(text)
+        except ValueError:
+            return float(text)
     value, low, high = (conv(c) for c in case[:3])
     tol = case[3]
     plot_utils = _lib()
